@@ -129,9 +129,36 @@ def editOps (mf : Path) (enc : Option Bytes) : List Op :=
     | none => []
     | some new => [.create (partPath mf), .write (partPath mf) new, .replace (partPath mf) mf]
 
+/-- `edit_torrent` after `fix: a leftover '.part' entry is removed before the edited metafile is
+    written`, for a filesystem that may already hold `<metafile>.part` (left behind by an edit
+    that died):
+    ```
+    meta = pyben.load(metafile)            -- read
+    try:
+        if os.path.lexists(temp): os.remove(temp)     -- only when the leftover is there
+        pyben.dump(meta, temp)             -- encode (may raise), open(temp,'wb'), write
+        os.replace(temp, metafile)
+    finally: …
+    ```
+    Without a leftover this is `editOps` (`editOpsFrom_eq`).  Note that the leftover is removed
+    BEFORE the encoder runs, so an encoding error no longer leaves it in place.  (Links are not
+    in this model; for a regular leftover file `lexists` = `exists`.) -/
+def editOpsFrom (fs : FS) (mf : Path) (enc : Option Bytes) : List Op :=
+  .read mf :: ((if fs.has (partPath mf) then [.remove (partPath mf)] else []) ++
+    match enc with
+    | none => []
+    | some new => [.create (partPath mf), .write (partPath mf) new, .replace (partPath mf) mf])
+
 /-- `finally: if os.path.exists(temp): os.remove(temp)` -/
 def editFinally (mf : Path) (fs : FS) : List Op :=
   if fs.has (partPath mf) then [.remove (partPath mf)] else []
+
+/-- What is found after operation number `i` of `editOpsFrom` raised.  The load (operation 0)
+    happens BEFORE the `try:`, so an error there propagates without the `finally` clause — a
+    leftover `.part` stays; every later operation is inside the `try`. -/
+def editError (fs : FS) (mf : Path) (enc : Option Bytes) (i k : Nat) : Option FS :=
+  if i = 0 then crashState fs (editOpsFrom fs mf enc) 0 k
+  else errorState fs (editOpsFrom fs mf enc) (editFinally mf) i k
 
 /-- The order of operations before the fix (`os.remove(metafile); pyben.dump(meta, metafile)`),
     kept to document why the fix was needed. -/
@@ -146,9 +173,11 @@ def endsWithSep (p : Path) : Bool :=
   | none => false
 
 /-- `utils.check_path_writable(path)` after `fix: the writability probe only removes a file it
-    created itself`:
+    created itself` (and `fix: the writability probe follows a symbolic link instead of removing
+    it`: `path = os.path.realpath(path)` — the identity in this model, which has no links):
     ```
     if path.endswith("\\") or path.endswith("/"): path = os.path.join(path, ".torrent")
+    path = os.path.realpath(path)
     existed = os.path.exists(path)
     with open(path, "ab") as _: pass
     if not existed: os.remove(path)
@@ -204,15 +233,22 @@ inductive RenameErr
   | exists
   deriving DecidableEq, Repr
 
-/-- `commands.rename`:
+/-- `commands.rename` (after `fix: rename keeps the metafile in its directory and never replaces
+    a link`):
     ```
     if not target or not os.path.exists(target): raise FileNotFoundError
     meta = pyben.load(target)                                   -- read
+    name = os.path.basename(str(meta["info"]["name"]).rstrip("/"))
+    if name in ("", ".", ".."): raise ValueError                -- nothing has been written
     new_path = os.path.join(os.path.dirname(target), name + ".torrent")
-    if os.path.exists(new_path): raise FileExistsError
+    if os.path.lexists(new_path): raise FileExistsError
     os.rename(target, new_path)
     ```
-    `newPath` is the computed `new_path` (a pure function of the target path and the metafile). -/
+    `newPath` is the computed `new_path` (a pure function of the target path and the metafile;
+    the `ValueError` branch, which performs no mutating operation, is the case "no `newPath`"
+    and is not represented).  Links are not in this model: for regular files `lexists` = `has`.
+    When the code refuses with `FileExistsError` it has already performed the read; the model
+    returns the error without an operation list (both are read-only). -/
 def renameOps (fs : FS) (target newPath : Path) : Except RenameErr (List Op) :=
   if ¬ fs.has target then .error .notFound
   else if fs.has newPath then .error .exists
